@@ -345,8 +345,18 @@ func (h scriptHandler) HandleRPC(stream drpc.Stream, rpc string) error {
 var contentTypes = []string{"application/proto", "application/json", "application/grpc-web+proto", "application/grpc-web+json",
 	"application/grpc-web-text+proto", "application/grpc-web-text+json", "text/plain", ""}
 
+// requestTargets: what a peer may put in the request line. Every fourth request uses one of the odd ones.
+var requestTargets = []string{"http://example.com", "http://example.com/", "/", "//", "/svc/Method/", "/a/b/c/d", "http://example.com?x=1", "/%2F%00", "*"}
+
 func serve(h drpc.Handler, ct string, body io.Reader, hdr []string) *httptest.ResponseRecorder {
-	req := httptest.NewRequest("POST", "/svc/Method", body)
+	target := "/svc/Method"
+	if n := atomic.AddUint64(&serveTargets, 1); n%4 == 0 {
+		target = requestTargets[(n/4)%uint64(len(requestTargets))]
+	}
+	req := httptest.NewRequest("POST", target, body)
+	if target == "*" {
+		req.URL.Path = "" // what the server hands over for "OPTIONS *"-style targets: no path at all
+	}
 	if ct != "" {
 		req.Header.Set("Content-Type", ct)
 	}
@@ -364,7 +374,7 @@ func serve(h drpc.Handler, ct string, body io.Reader, hdr []string) *httptest.Re
 	return rec
 }
 
-var serveCalls uint64
+var serveCalls, serveTargets uint64
 
 // plainWriter hides every optional interface of the recorder.
 type plainWriter struct{ rec *httptest.ResponseRecorder }
